@@ -74,6 +74,8 @@ def evaluate(case):
                 fp = "C01|tree|paths"
             return viol(fp, "decoded tree differs from the specification:\n  " + "\n  ".join(diffs[:8]))
         out = dict(status="ok", sha=sha_file(img))
+        if case["kind"].startswith("sweep-listing") and b"W" in im.tree:
+            out["listing_size"] = im.tree[b"W"]["dsize"] - 3
         # rdsquashfs views on a subset: cat every file, list root
         if case.get("readers"):
             rd = packcheck.TOOLS["rdsquashfs"]
@@ -179,6 +181,7 @@ def main():
         cr.coverage["planned_cases"] = len(cases)
 
         seen = set()
+        listing_sizes = set()
         n_eval = n_ref = n_kern = 0
         kern_bad = []
         by_kind = {}
@@ -200,6 +203,8 @@ def main():
                     cr.violation(r["fp"], r["what"], files=r["files"], replay_sh=r.get("replay_sh"))
                     continue
                 seen.add(r["sha"])
+                if "listing_size" in r:
+                    listing_sizes.add(r["listing_size"])
                 if r.get("refused"):
                     n_ref += 1
                 if "kernel" in r:
@@ -208,6 +213,12 @@ def main():
                         kern_bad.append((c["names"], r["kernel"]))
                 if len(cr.coverage["samples"]) < 5 and len(c["names"]) >= 2:
                     cr.sample({"kind": c["kind"], "templates": list(c["names"]), "cfg": c["cfg"], "mode": c["mode"], "image_sha256": r["sha"][:16]})
+        if not cr.coverage.get("caps_hit"):
+            for lo, hi, what in ((65528, 65536, "64 KiB"), (8186, 8192, "8 KiB")):
+                missing = [x for x in range(lo, hi + 1) if x not in listing_sizes]
+                if missing:
+                    cr.cap("listing-size sweep did not produce sizes %s around the %s boundary" % (missing[:6], what))
+        cr.coverage["listing_sizes_covered"] = [min(listing_sizes), max(listing_sizes), len(listing_sizes)] if listing_sizes else None
         if kern_bad:
             # the kernel and the independent decoder disagree: my components disagree -> harness problem, not a verdict
             print("HARNESS-ERROR: decoder and kernel disagree: %r" % kern_bad[:3], file=sys.stderr)
